@@ -237,14 +237,15 @@ def validate_traces(trace_module, cfg, traces, *, shards=None, timeout=900, env=
 
 def negative_controls(trace_module, cfg, traces, corruptors, **kw):
     """ corruptors: list of (name, fn); fn(event) corrupts the event IN PLACE and returns True if it applied.
-    For every corruptor the first event (of the first trace) it applies to is corrupted in a deep copy of that trace; every corrupted trace must be
-    REJECTED by the trace spec at exactly that event, otherwise the machinery cannot see what it claims to decide (Machinery, exit 2).
-    Returns the names of the controls that were exercised. """
+    For every corruptor up to three candidate events (in different traces) are corrupted in a deep copy of their trace; original and corrupted traces are validated
+    together.  The first candidate whose ORIGINAL trace is accepted counts: its corrupted copy must be REJECTED by the trace spec at exactly that event, otherwise the
+    machinery cannot see what it claims to decide (Machinery, exit 2).  (On a tree that breaks the property the originals may be rejected themselves: such candidates
+    are skipped - the violation is reported by the main validation.)  Returns the names of the controls that were exercised. """
     import copy
     saved = getattr(validate_traces, 'last_rejects', None)
-    bad, meta = [], []
+    batch, meta = [], []
     for name, fn in corruptors:
-        done = False
+        found = 0
         for t in traces:
             for i, e in enumerate(t['ev']):
                 e2 = copy.deepcopy(e)
@@ -256,16 +257,25 @@ def negative_controls(trace_module, cfg, traces, corruptors, **kw):
                     c = {k: v for k, v in t.items() if k != 'ev'}
                     c['ev'] = list(t['ev'])
                     c['ev'][i] = e2
-                    bad.append(c)
+                    o = {k: v for k, v in t.items() if k != 'ev'}
+                    o['ev'] = list(t['ev'])
+                    batch += [o, c]
                     meta.append((name, i + 1))
-                    done = True
+                    found += 1
                     break
-            if done:
+            if found >= 3:
                 break
-    if bad:
-        acc, diag, _ = validate_traces(trace_module, cfg, bad, shards=min(4, len(bad)), **kw)
-        for (name, pos), a, rj in zip(meta, acc, validate_traces.last_rejects):
-            if a or pos not in [l for l, _ in rj]:
+    done = []
+    if batch:
+        acc, diag, _ = validate_traces(trace_module, cfg, batch, shards=min(4, len(batch)), **kw)
+        rj = validate_traces.last_rejects
+        for k, (name, pos) in enumerate(meta):
+            if name in done:
+                continue
+            if not acc[2 * k]:
+                continue          # the original trace is itself rejected (broken tree): not a usable control
+            if acc[2 * k + 1] or pos not in [l for l, _ in rj[2 * k + 1]]:
                 raise Machinery('negative control "%s": corrupted event %d accepted by %s' % (name, pos, trace_module))
+            done.append(name)
     validate_traces.last_rejects = saved
-    return [m[0] for m in meta]
+    return done
